@@ -269,13 +269,17 @@ def dependents(c):
         out['pickup'] = [float(lens.surface_group.radii[tgt]), sc * float(lens.surface_group.radii[src]) + off]
     if c.solve:
         ya, ua = lens.paraxial.marginal_ray()
-        ya = np.ravel(ya)
-        out['solve'] = [float(ya[c.solve[0]]), float(c.solve[1]), float(np.max(np.abs(ya[1:])))]
+        ya, ua = np.ravel(ya), np.ravel(ua)
+        z = np.array([fscalar(s.geometry.cs.z) for s in lens.surface_group.surfaces[1:]], dtype=float)
+        fz = z[np.isfinite(z)]
+        fu = ua[np.isfinite(ua)]
+        out['solve'] = [float(ya[c.solve[0]]), float(c.solve[1]), float(np.max(np.abs(ya[1:]))), float(z[c.solve[0] - 1]),
+                        float(np.max(np.abs(fz))) if fz.size else 0.0, float(np.max(np.abs(fu))) if fu.size else 0.0]
     return out
 
 
 @contextlib.contextmanager
-def logged_fun(log, probe=None):
+def logged_fun(log, probe=None, lens=None, track=None):
     """Log every objective evaluation made in THIS process: the class attribute OptimizerGeneric._fun is
     rebound to a wrapper of the same name (so that a bound method still pickles by name for worker processes,
     which re-import the unpatched class)."""
@@ -287,6 +291,11 @@ def logged_fun(log, probe=None):
         v = orig(self, x)
         f1 = probe() if probe else 0
         log.append(([float(t) for t in np.ravel(np.asarray(x, dtype=float))], float(v), f1 - f0))
+        if lens is not None and track is not None:
+            for sf in lens.surface_group.surfaces[1:]:
+                zz = abs(fscalar(sf.geometry.cs.z))
+                if math.isfinite(zz) and zz > track[0]:
+                    track[0] = zz
         return v
     _fun.__qualname__ = 'OptimizerGeneric._fun'
     OptimizerGeneric._fun = _fun
@@ -343,6 +352,7 @@ def observe_run(c, fe, opts, nan_at=None, np_seed=0):
     o['raw0'] = [raw_get(lens, vs) for vs in c.vars]
     log = []
     fp = None
+    track = [0.0]
     np.random.seed(int(np_seed) & 0x7FFFFFFF)
     t0 = time.time()
     err = None
@@ -350,15 +360,16 @@ def observe_run(c, fe, opts, nan_at=None, np_seed=0):
         if nan_at:
             from . import monitors
             with monitors.Failpoint(lens.paraxial, 'f2', nan_at, mode='nan') as fp:
-                with logged_fun(log, probe=lambda: fp.fired):
+                with logged_fun(log, probe=lambda: fp.fired, lens=lens, track=track):
                     res, fun = call_frontend(c, fe, opts)
         else:
-            with logged_fun(log):
+            with logged_fun(log, lens=lens, track=track):
                 res, fun = call_frontend(c, fe, opts)
-    except ValueError as e:
+    except Exception as e:
         err = e
     finally:
         lens.paraxial.__dict__.pop('f2', None)      # Failpoint leaves the bound method behind as instance attribute
+    o['zmax_seen'] = track[0]
     o['wall'] = time.time() - t0
     o['n_eval'] = len(log)
     o['log_head'] = log[:4]
@@ -369,7 +380,8 @@ def observe_run(c, fe, opts, nan_at=None, np_seed=0):
     o['nonfinite_objectives'] = int(sum(1 for l in log if not math.isfinite(l[1])))
     if err is not None:
         o['error'] = f'{type(err).__name__}: {err}'
-        o['error_tb_in_scipy'] = _raised_in_scipy(err)
+        o['error_kind'] = _error_kind(err)
+        o['error_tb_in_scipy'] = o['error_kind'] == 'scipy'
         o['error_obj'] = err
         return o
     o['x'] = [float(t) for t in np.ravel(res.x)]
@@ -391,10 +403,22 @@ def observe_run(c, fe, opts, nan_at=None, np_seed=0):
     return o
 
 
-def _raised_in_scipy(e):
+def _error_kind(e):
+    """'scipy' (raised by scipy's own input checks), 'operand' (raised by the analysis code under an operand: ray
+    tracing, surfaces, wavefront ...), 'optimization' (raised in optiland/optimization or /tolerancing), 'other'."""
     import traceback
     fr = traceback.extract_tb(e.__traceback__)
-    return bool(fr) and '/scipy/' in fr[-1].filename
+    if not fr:
+        return 'other'
+    if '/scipy/' in fr[-1].filename:
+        return 'scipy'
+    lib = [f for f in fr if '/optiland/' in f.filename and '/vkit/' not in f.filename and '/props/' not in f.filename]
+    if lib:
+        last = lib[-1].filename
+        if '/optiland/optimization/' in last or '/optiland/tolerancing/' in last:
+            return 'optimization'
+        return 'operand'
+    return 'other'
 
 
 def observe_undo(c):
